@@ -59,6 +59,18 @@ CHECKS["C17"] = dict(
     design="4 (C17)",
     note="unknown elements of length 0 are rejected in all modes since fix 52ccd48.")
 
+CHECKS["C20"] = dict(
+    engine="store",
+    technique="Lean 4 proof (bounded-buffer invariant and window refinement by induction over all op sequences; render completeness) + in-package differential correspondence of cmd/collector",
+    text="25 theorems on the model of the standalone collector's store and handlers: len_le_cap (every op sequence), window (items = last cap "
+         "arrivals since the last reset, in order), query_last / query_response (last min(n, stored) entries in json and text), query_refused, "
+         "reset_empties / reset_refused, render_complete (for every record and field the line `name: value` occurs in the rendered entry), and "
+         "model_trace_holds (the model's trace satisfies the executable Spec predicate). The real addIPFIXMessage / flowRecordHandler / "
+         "resetRecordHandler are driven through an overlay _test.go (go test -c) with sessions exceeding 3 x cap arrivals; the Spec predicate "
+         "(stateful tracker of arrivals) is evaluated on every implementation response.",
+    design="4 (C20), 5 (D10 fixed)",
+    note="time.Local is set to UTC by the driver; floats are not generated (Go's shortest %v is not modelled); handlers are called through httptest without the ServeMux.")
+
 NOT_YET = {}
 
 
@@ -87,7 +99,7 @@ def main():
         "setup_cmd": "python3 check.py setup",
         "hooks": {
             "guard": "verif",
-            "enable": "no hook commits in /repo: harness/overlay/<pkg>/verif_hooks.go (build tag verif) are added to /repo's packages with `go build -tags verif -overlay harness/overlay.json`; pkg/intermediate additionally gets time.Now() rewritten to verifNow() in the overlay copy (virtual clock)",
+            "enable": "no hook commits in /repo: harness/overlay/<pkg>/verif_hooks.go (build tag verif) are added to /repo's packages with `go build -tags verif -overlay harness/overlay.json`; pkg/intermediate additionally gets time.Now() rewritten to verifNow() in the overlay copy (virtual clock); cmd/collector (package main) gets an overlay _test.go and is driven as a `go test -c` binary",
             "baseline_off_cmd": "cd /repo && go test -mod=mod -json -vet=off -count=1 -timeout 25m ./...",
             "source_commits": [],
             "add_only": True,
